@@ -22,24 +22,27 @@ ASSUMPTIONS = [
     'binning clause judged only for native spacing <= 1/4 of the widest mid-point bin (narrower than the statement, see DESIGN.md); FluxBinner with implied (mid-point) widths',
     'own-grid clause is bit-equality; foreign points must lie between the two neighbouring native values (equal to the end value outside the native range)',
 ]
-REQUIRED = {'grids:multi': 0.35, 'grids:single': 0.15, 'family:emission': 0.2, 'family:transmission': 0.2}
+REQUIRED = {'obs:constant-R-wide': 0.08, 'grids:multi': 0.35, 'grids:single': 0.15, 'family:emission': 0.2, 'family:transmission': 0.2}
 
 
 @st.composite
 def _case(draw):
     family = draw(st.sampled_from(['transmission', 'emission']))
-    n0 = draw(st.integers(12, 40))
+    n0 = draw(S.ints(12, 40))
     kinds = draw(st.lists(st.sampled_from(['nested2', 'offset', 'own', 'same', 'nested3']), min_size=3, max_size=3))
     own = [[draw(st.floats(-0.2, 0.5)), draw(st.floats(0.6, 2.5)), draw(st.floats(0.3, 0.9))] for _ in range(3)]
-    i0 = draw(st.integers(0, n0 - 3))
-    i1 = draw(st.integers(i0 + 2, n0 - 1))
-    nb = draw(st.integers(2, 6))
-    obs = [draw(st.floats(0.02, 0.98)), draw(st.floats(0.1, 0.9))]
+    i0 = draw(S.ints(0, n0 - 3))
+    i1 = draw(S.ints(i0 + 2, n0 - 1))
+    nb = draw(S.ints(2, 6))
+    obs = [draw(st.floats(0.02, 0.98)), draw(st.one_of(st.floats(0.45, 0.9), st.floats(0.1, 0.9)))]
     tp = [draw(st.floats(0.0, 1.0)), draw(st.floats(0.0, 1.0))]
     w = draw(S.world(layers=(2, 16), nwn=(n0, n0), max_active=3, extras=('CIA', 'Rayleigh'),
                      mags=['mixed', 'mixed', 'transparent', 'saturated']))
+    if obs[1] > 0.4:
+        # constant-resolving-power observations need a native grid spanning well over a factor two in wavenumber
+        w['wn0'] = min(w['wn0'], w['dwn'] * n0 / 4.0)
     return {'world': w, 'family': family, 'kinds': kinds, 'own': own, 'sub': [i0, i1], 'nbins': nb, 'obs': obs,
-            'tp': tp, 'ngauss': draw(st.integers(1, 4))}
+            'tp': tp, 'ngauss': draw(S.ints(1, 4))}
 
 
 def strategy(tier):
@@ -161,6 +164,8 @@ def check(case):
                         centres = np.array(geo)
                         nb = len(geo)
                         out.cls('obs:constant-R')
+                        if centres[-1] / centres[0] > 2.2:
+                            out.cls('obs:constant-R-wide')
                 out.cls('binning-judged')
                 out.applies('binned-restricted==binned-full')
                 b = FluxBinner(centres.copy())
